@@ -5,8 +5,19 @@
 //! (thread, site, key per step), the per-op results with their first/last step, the final image,
 //! the log records and the image of the store recovered from the log must equal the model's.
 //! Oracles on the real outputs: Wing–Gong linearizability check of the recorded history against the
-//! key→value specification; recovered state = last in-memory state after quiescence; the Lean
-//! witness interleavings replayed on the real store.
+//! key→value specification; recovered state = last in-memory state after quiescence (per key, after
+//! EVERY run with a log); the Lean witness interleavings replayed on the real store.
+//!
+//! Two ways of dealing with the log mutex of durable writes.  MIRROR (default): the harness tracks
+//! the mutex from the yield trace and never grants a thread that would block, so a run is a fully
+//! controlled schedule — but code that runs between the entry of `put_durable` / `delete_durable`
+//! and `Mutex::lock` is then never executed while another thread holds the mutex.  REAL MUTEX
+//! (`Ctx::real_mutex`, streams `directed.real_mutex.*`, `witness.delete_skip_if_absent`,
+//! `random.durable_real_mutex`): such a thread IS granted, runs up to its block on the real mutex
+//! (the scheduler sees the stall and goes on with the parked threads), and takes its log step when
+//! the holder releases; the harness reconstructs from what it observes the EFFECTIVE step order
+//! (the blocked thread's log step right after the holder's last step), which is the schedule the
+//! model is asked about, and the oracles are evaluated on the real outputs as in every other run.
 use nverif::sched::run_threads;
 use nverif::*;
 use serde_json::json;
@@ -323,9 +334,21 @@ struct HRec {
     res: Res,
     inv: usize,
     ret: usize,
+    /// the step before which the operation was CALLED (= `inv`, except for a durable write that
+    /// waited for the log mutex: called when it was granted, first atomic step when it got the mutex)
+    call: usize,
 }
 
 struct RunOut {
+    /// the threads in the order in which they were granted (a grant of a thread that then blocked
+    /// on the real log mutex included): what a scripted schedule speaks about
+    grants: Vec<usize>,
+    /// durable writers that were granted while the mutex was held: "<waiter site>_behind_<holder site>_<same|other>_key"
+    waits: Vec<String>,
+    /// a runner was still running after the stall window although the mutex does not explain it
+    /// (machine load): the step order is not known, the run is discarded
+    unexplained: bool,
+    /// the threads in the order of their atomic steps (= `grants` when nobody waited for the mutex)
     sched: Vec<usize>,
     trace: String,
     hist: Vec<HRec>,
@@ -405,7 +428,7 @@ fn site_key(site: &str, key: &str) -> String {
 /// `exclusive_emb`: the hypothesis of `emb_linearizable_partial` — a thread parked at the entry of
 /// an operation on an `emb:` key is not offered while another thread is inside an operation on the
 /// same key (parked at one of its `router.*` yield points).
-fn run_real(progs: &[Vec<Op>], wal: Option<SyncMode>, respect_lock: bool, exclusive_emb: bool, mut pick: impl FnMut(usize, &[usize]) -> Option<usize>) -> RunOut {
+fn run_real(progs: &[Vec<Op>], wal: Option<SyncMode>, respect_lock: bool, exclusive_emb: bool, mut pick: impl FnMut(usize, &[usize], Option<usize>) -> Option<usize>) -> RunOut {
     let dir = tempfile::tempdir().expect("tempdir");
     let wal_path = dir.path().join("store.wal");
     let cfg = wal.map(|m| WalConfig { sync_mode: m, ..WalConfig::default() });
@@ -429,12 +452,37 @@ fn run_real(progs: &[Vec<Op>], wal: Option<SyncMode>, respect_lock: bool, exclus
             }) as Box<dyn FnOnce() + Send>
         })
         .collect();
-    let mut eff = 0usize;
+    let n = progs.len();
+    let mut grant_no = 0usize;
     let mut deviated = false;
-    let lock_on = respect_lock && wal.is_some();
-    let mut in_cs = vec![false; progs.len()];
+    let lock_on = wal.is_some();
+    let mut in_cs = vec![false; n];
+    // (thread, site, key, number of atomic steps taken when it was granted) of the durable writers
+    // that were granted while the mutex was held: blocked in `Mutex::lock` (or on their way there)
+    let mut waiting: Vec<(usize, &'static str, String, usize)> = Vec::new();
+    let mut steps: Vec<(usize, String, String)> = Vec::new();
+    let mut calls: Vec<usize> = Vec::new();
+    let mut grants: Vec<usize> = Vec::new();
+    let mut waits: Vec<String> = Vec::new();
+    let mut waiting_at: Vec<Vec<usize>> = Vec::new(); // per scheduler step: the threads known to wait
+    let mut slow_waiter = false;
+    let short = |site: &str| site.trim_start_matches("store.").trim_start_matches("router.").trim_end_matches(".after_log").to_string();
     let trace = run_threads(tasks, |_n, parked| {
+        // a waiter that is parked again has got the mutex and taken its log step: that step ran
+        // now, after the last step of the thread that released the mutex
+        let mut i = 0;
+        while i < waiting.len() {
+            if let Some(x) = parked.iter().find(|x| x.0 == waiting[i].0) {
+                let w = waiting.remove(i);
+                steps.push((w.0, w.1.to_string(), site_key(w.1, &w.2)));
+                calls.push(w.3);
+                in_cs[w.0] = !x.1.starts_with("store.");
+            } else {
+                i += 1;
+            }
+        }
         if let Some(p) = parked.iter().position(|x| x.1 == "thread.start") {
+            waiting_at.push(Vec::new());
             return p;
         }
         let takes_lock = |x: &(usize, &'static str, String)| {
@@ -447,10 +495,14 @@ fn run_real(progs: &[Vec<Op>], wal: Option<SyncMode>, respect_lock: bool, exclus
         }
         for t in 0..in_cs.len() {
             if !parked.iter().any(|x| x.0 == t) {
-                in_cs[t] = false; // finished
+                in_cs[t] = false; // finished (or waiting for the mutex)
             }
         }
         let held = lock_on && in_cs.iter().any(|b| *b);
+        if !waiting.is_empty() && !held {
+            slow_waiter = true; // the mutex is free and the waiter it woke has not parked yet
+        }
+        waiting_at.push(waiting.iter().map(|w| w.0).collect());
         let emb_busy = |i: usize| {
             let x = &parked[i];
             exclusive_emb
@@ -458,10 +510,11 @@ fn run_real(progs: &[Vec<Op>], wal: Option<SyncMode>, respect_lock: bool, exclus
                 && x.2.starts_with("emb:")
                 && parked.iter().any(|y| y.0 != x.0 && y.1.starts_with("router.") && y.2 == x.2)
         };
-        let cand: Vec<usize> = (0..parked.len()).filter(|i| !(held && takes_lock(&parked[*i])) && !emb_busy(*i)).collect();
+        let cand: Vec<usize> = (0..parked.len()).filter(|i| !(respect_lock && held && takes_lock(&parked[*i])) && !emb_busy(*i)).collect();
         let ids: Vec<usize> = cand.iter().map(|i| parked[*i].0).collect();
-        let want = pick(eff, &ids);
-        eff += 1;
+        let holder = (0..in_cs.len()).find(|t| in_cs[*t]);
+        let want = pick(grant_no, &ids, if waiting.is_empty() { None } else { holder });
+        grant_no += 1;
         let p = match want.and_then(|w| ids.iter().position(|x| *x == w)) {
             Some(p) => cand[p],
             None => {
@@ -469,28 +522,46 @@ fn run_real(progs: &[Vec<Op>], wal: Option<SyncMode>, respect_lock: bool, exclus
                 cand[0]
             }
         };
-        if lock_on && takes_lock(&parked[p]) {
-            in_cs[parked[p].0] = true;
+        let x = &parked[p];
+        grants.push(x.0);
+        if lock_on && takes_lock(x) {
+            if held {
+                // only without the mirror: it runs up to `Mutex::lock` and blocks there
+                let h = holder.and_then(|h| parked.iter().find(|y| y.0 == h));
+                waits.push(format!(
+                    "{}_behind_{}_{}_key",
+                    short(x.1),
+                    h.map_or("?".to_string(), |y| short(y.1)),
+                    if h.map_or(false, |y| y.2 == x.2) { "same" } else { "other" }
+                ));
+                waiting.push((x.0, x.1, x.2.clone(), steps.len()));
+                return p;
+            }
+            in_cs[x.0] = true;
         }
+        calls.push(steps.len());
+        steps.push((x.0, x.1.to_string(), site_key(x.1, &x.2)));
         p
     });
+    for w in waiting.drain(..) {
+        // returned without another yield point (log error): its one step ran at the end
+        calls.push(w.3);
+        steps.push((w.0, w.1.to_string(), site_key(w.1, &w.2)));
+    }
     let stalled = trace.iter().any(|s| !s.blocked.is_empty());
-    let steps: Vec<(usize, String, String)> = trace
-        .iter()
-        .filter(|s| s.site != "thread.start")
-        .map(|s| (s.thread, s.site.to_string(), site_key(s.site, &s.key)))
-        .collect();
+    let unexplained = slow_waiter
+        || trace.iter().enumerate().any(|(i, s)| s.blocked.iter().any(|b| !waiting_at.get(i).map_or(false, |w| w.contains(b))));
     let results = results.lock().unwrap().clone();
     let panicked = results.iter().zip(progs).any(|(r, p)| r.len() != p.len());
     // op boundaries: a `store.*` step starts the thread's next op
     let mut hist: Vec<HRec> = Vec::new();
-    let mut cur: Vec<Option<(usize, usize)>> = vec![None; progs.len()]; // (op index, inv)
+    let mut cur: Vec<Option<(usize, usize, usize)>> = vec![None; progs.len()]; // (op index, inv, call)
     let mut next_i = vec![0usize; progs.len()];
     let mut last_step = vec![0usize; progs.len()];
-    let close = |t: usize, cur: &mut Vec<Option<(usize, usize)>>, last: usize, hist: &mut Vec<HRec>| {
-        if let Some((i, inv)) = cur[t].take() {
+    let close = |t: usize, cur: &mut Vec<Option<(usize, usize, usize)>>, last: usize, hist: &mut Vec<HRec>| {
+        if let Some((i, inv, call)) = cur[t].take() {
             if let (Some(op), Some(res)) = (progs[t].get(i), results[t].get(i)) {
-                hist.push(HRec { t, i, op: *op, res: res.clone(), inv, ret: last });
+                hist.push(HRec { t, i, op: *op, res: res.clone(), inv, ret: last, call });
             }
         }
     };
@@ -498,7 +569,7 @@ fn run_real(progs: &[Vec<Op>], wal: Option<SyncMode>, respect_lock: bool, exclus
         if site.starts_with("store.") {
             let l = last_step[*t];
             close(*t, &mut cur, l, &mut hist);
-            cur[*t] = Some((next_i[*t], n));
+            cur[*t] = Some((next_i[*t], n, calls[n].min(n)));
             next_i[*t] += 1;
         }
         last_step[*t] = n;
@@ -547,6 +618,9 @@ fn run_real(progs: &[Vec<Op>], wal: Option<SyncMode>, respect_lock: bool, exclus
         steps.iter().map(|(t, s, k)| format!("{t}:{s}:{k}")).collect::<Vec<_>>().join(",")
     };
     RunOut {
+        grants,
+        waits,
+        unexplained,
         sched: steps.iter().map(|s| s.0).collect(),
         trace: trace_s,
         hist,
@@ -741,7 +815,47 @@ impl Gen {
     }
 }
 
+impl Gen {
+    /// mostly durable writers of one or two contended plain / graph / table keys that start absent:
+    /// puts and deletes (of present keys, of keys never put, of keys being put) in equal measure
+    fn writers(&mut self, r: &mut Rng, nthreads: usize) -> Vec<Vec<Op>> {
+        let cls = *r.pick(&[Cls::P, Cls::G, Cls::T]);
+        let nkeys = 1 + r.below(2) as u32;
+        (0..nthreads)
+            .map(|_| {
+                let n = 1 + r.below(2) as usize;
+                (0..n)
+                    .map(|_| {
+                        let k = Key { cls, id: 1 + r.below(u64::from(nkeys)) as u32 };
+                        match r.below(100) {
+                            0..=41 => {
+                                self.next_tag += 1;
+                                Op::PutD(k, Val { tag: self.next_tag, vec: VecF::N })
+                            }
+                            42..=83 => Op::DelD(k),
+                            84..=91 => Op::Get(k),
+                            92..=95 => Op::Ex(k),
+                            _ => Op::Scan(Some(cls)),
+                        }
+                    })
+                    .collect()
+            })
+            .collect()
+    }
+}
+
 // ------------------------------------------------------------------ one case
+
+/// the replayable input of a case (`line`, and `mutex` / `grants` of a real-mutex run) + details
+fn with(base: &serde_json::Value, extra: serde_json::Value) -> serde_json::Value {
+    let mut v = base.clone();
+    if let (Some(o), Some(e)) = (v.as_object_mut(), extra.as_object()) {
+        for (k, x) in e {
+            o.insert(k.clone(), x.clone());
+        }
+    }
+    v
+}
 
 struct Ctx<'a> {
     rep: &'a mut Report,
@@ -751,6 +865,9 @@ struct Ctx<'a> {
     stalls: u64,
     /// schedule so that no two operations on one `emb:` key overlap (see `run_real`)
     exclusive_emb: bool,
+    /// no harness-side mirror of the log mutex: durable writers are granted while the mutex is held
+    /// and block on the REAL mutex (see the head of this file)
+    real_mutex: bool,
 }
 
 impl Ctx<'_> {
@@ -770,11 +887,16 @@ impl Ctx<'_> {
         // must be reproduced on every run, also on a loaded machine
         for _attempt in 0..(if sched.is_some() { 12 } else { 3 }) {
             let mut r2 = rng.clone();
-            let o = run_real(progs, wal, true, self.exclusive_emb, |i, ids| match sched {
+            let o = run_real(progs, wal, !self.real_mutex, self.exclusive_emb, |i, ids, holder| match sched {
                 Some(s) => s.get(i).copied(),
-                None => Some(ids[r2.below(ids.len() as u64) as usize]),
+                // while somebody waits for the mutex every scheduling decision costs the stall window:
+                // let the holder go on half of the time
+                None => match holder {
+                    Some(h) if ids.contains(&h) && r2.chance(1, 2) => Some(h),
+                    _ => Some(ids[r2.below(ids.len() as u64) as usize]),
+                },
             });
-            if o.stalled {
+            if o.unexplained {
                 self.stalls += 1;
                 continue; // a runner missed the 30 ms window (machine load): not a controlled schedule
             }
@@ -790,9 +912,18 @@ impl Ctx<'_> {
             }
         };
         let ps = show_progs(progs);
+        // the model is asked about the order of the atomic steps; a replay needs the grants
         let line = format!("run {} {} {}", if wal.is_some() { 1 } else { 0 }, ps, show_sched(&o.sched));
         let ans = self.model.ask(&line);
-        let input = || json!({"line": line});
+        let real_mutex = self.real_mutex;
+        let grants_s = show_sched(&o.grants);
+        let input = || if real_mutex { json!({"line": line, "mutex": "real", "grants": grants_s}) } else { json!({"line": line}) };
+        if real_mutex {
+            self.rep.hit(if o.waits.is_empty() { "real_mutex:nobody_waited" } else { "real_mutex:durable_writer_waited_for_real_log_mutex" });
+            for w in &o.waits {
+                self.rep.hit(&format!("real_mutex:{w}"));
+            }
+        }
         let nontrivial = o.hist.iter().any(|r| matches!(r.op, Op::Put(..) | Op::PutD(..) | Op::Del(..) | Op::DelD(..)) && r.res == Res::Ok)
             && o.hist.iter().any(|r| matches!(r.res, Res::Found(_) | Res::Bool(true)) || matches!(&r.res, Res::Keys(k) if !k.is_empty()));
         self.rep.case(stream, if nontrivial { Some(&line) } else { None });
@@ -825,7 +956,11 @@ impl Ctx<'_> {
             }
         }
         if parts.is_empty() {
+            // the oracles speak about the real outputs alone: evaluated whatever the model says
             self.rep.disagree(&format!("{stream}.driver"), input(), "", &ans);
+            if oracle {
+                self.oracles(progs, wal.is_some(), &o, &input());
+            }
             return Some(o);
         }
         self.rep.compare(&format!("{stream}.trace"), input, &o.trace, parts.get("trace").unwrap_or(&"?"));
@@ -840,7 +975,7 @@ impl Ctx<'_> {
             self.rep.sample(json!({"stream": stream, "line": line, "real_hist": o.hist_s, "image": o.image}));
         }
         if oracle {
-            self.oracles(progs, wal.is_some(), &o, &line);
+            self.oracles(progs, wal.is_some(), &o, &input());
         }
         Some(o)
     }
@@ -853,7 +988,7 @@ impl Ctx<'_> {
     /// blocked thread where it is).  If the mutex were released before the apply (the code before
     /// dfea2ecb) the script executes as written and the durable oracle reports the reversal.
     fn mutex_probe(&mut self, progs: &[Vec<Op>], sched: &[usize]) {
-        let o = run_real(progs, Some(SyncMode::Immediate), false, false, |i, _| sched.get(i).copied());
+        let o = run_real(progs, Some(SyncMode::Immediate), false, false, |i, _, _| sched.get(i).copied());
         let line = format!("run 1 {} {}", show_progs(progs), show_sched(sched));
         self.rep.case("probe.log_mutex", Some(&line));
         self.rep.hit(if o.stalled { "probe:second_durable_writer_blocked_on_real_log_mutex" } else { "probe:second_durable_writer_not_blocked" });
@@ -880,12 +1015,15 @@ impl Ctx<'_> {
             self.rep.compare("probe.log_mutex.wal_records", input, w, parts.get("wal").unwrap_or(&"?"));
             self.rep.compare("probe.log_mutex.recovered_image", input, ri, parts.get("rimage").unwrap_or(&"?"));
         }
-        self.durable_oracle(progs, true, &o, &line, &[]);
+        self.durable_oracle(progs, true, &o, &json!({"line": line, "mutex": "real", "grants": show_sched(sched)}), &[]);
     }
 
-    fn oracles(&mut self, progs: &[Vec<Op>], wal: bool, o: &RunOut, line: &str) {
-        // (a) linearizability of the recorded real history
-        let (ok, budget) = linearizable(&o.hist);
+    fn oracles(&mut self, progs: &[Vec<Op>], wal: bool, o: &RunOut, base: &serde_json::Value) {
+        // (a) linearizability of the recorded real history; an operation occupies the time from its
+        //     CALL (for a durable write that waited for the mutex: the grant, not the log step) to
+        //     its last step
+        let hist: Vec<HRec> = o.hist.iter().map(|r| HRec { inv: r.call, ..r.clone() }).collect();
+        let (ok, budget) = linearizable(&hist);
         if budget {
             self.budget_hits += 1;
         }
@@ -902,7 +1040,7 @@ impl Ctx<'_> {
             .collect();
         for k in &incoherent {
             let wrote_vec_durably = progs.iter().flatten().any(|op| matches!(op, Op::PutD(k2, v) if k2 == k && v.vec != VecF::N));
-            let key_ops: Vec<HRec> = o.hist.iter().filter(|r| r.op.key() == Some(*k)).cloned().collect();
+            let key_ops: Vec<HRec> = hist.iter().filter(|r| r.op.key() == Some(*k)).cloned().collect();
             let class = if k.cls != Cls::E && k.cls != Cls::C && wrote_vec_durably {
                 "tensor_store.slab_router.put_durable/non_emb_key_with_vector_stays_in_scan_after_delete".to_string()
             } else if k.cls == Cls::E && emb_ops_overlap(&key_ops) {
@@ -915,7 +1053,7 @@ impl Ctx<'_> {
             self.violation(
                 &class,
                 "after all threads finished, get / exists / scan give different answers about the key (get/exists/in-scan shown)",
-                json!({"line": line, "key": k.show(), "get/exists/inscan": o.mem_view.get(k), "real_history": o.hist_s}),
+                with(base, json!({"key": k.show(), "get/exists/inscan": o.mem_view.get(k), "real_history": o.hist_s})),
             );
         }
         if incoherent.is_empty() {
@@ -923,21 +1061,21 @@ impl Ctx<'_> {
         }
         let stale_scan = progs.iter().flatten().any(|op| matches!(op, Op::PutD(k, v) if k.cls != Cls::E && k.cls != Cls::C && v.vec != VecF::N));
         if !ok {
-            let (cls, mix) = classify_nonlin(&o.hist);
+            let (cls, mix) = classify_nonlin(&hist);
             if cls == "scan" && mix.is_none() && stale_scan {
                 // explained by the index entry `put_durable` leaves for a non-emb key (reported under (c) / below)
                 self.violation(
                     "tensor_store.slab_router.put_durable/non_emb_key_with_vector_stays_in_scan_after_delete",
                     "put_durable of a non-emb key whose value has an _embedding allocates an entity-index entry that delete never removes: scan keeps returning the deleted key",
-                    json!({"line": line, "real_history": o.hist_s}),
+                    with(base, json!({"real_history": o.hist_s})),
                 );
-                return self.durable_oracle(progs, wal, o, line, &incoherent);
+                return self.durable_oracle(progs, wal, o, base, &incoherent);
             }
-            let input = json!({"line": line, "real_history": o.hist_s, "real_trace": o.trace});
+            let input = with(base, json!({"real_history": o.hist_s, "real_trace": o.trace}));
             // the known findings have one root cause: two operations on one emb: key overlap.  A
             // non-linearizable history WITHOUT such an overlap contradicts `emb_linearizable_partial`
             // (and `single_step_ops_linearizable`) and gets a class of its own.
-            let sfx = if emb_ops_overlap(&o.hist) { "" } else { "_without_overlapping_emb_ops" };
+            let sfx = if emb_ops_overlap(&hist) { "" } else { "_without_overlapping_emb_ops" };
             match mix {
                 Some(what) => self.violation(&format!("tensor_store.slab_router.emb/get_mixes_two_puts{sfx}"), &what, input),
                 None => self.violation(
@@ -949,51 +1087,86 @@ impl Ctx<'_> {
         } else {
             self.rep.hit("oracle:history_linearizable");
         }
-        self.durable_oracle(progs, wal, o, line, &incoherent);
+        self.durable_oracle(progs, wal, o, base, &incoherent);
     }
 
-    // (b) crash after quiescence: recovered state = last in-memory state (all writes durable)
-    fn durable_oracle(&mut self, progs: &[Vec<Op>], wal: bool, o: &RunOut, line: &str, incoherent: &[Key]) {
-        let all_durable = progs.iter().flatten().all(|op| match op {
-            Op::Put(k, _) | Op::Del(k) => k.cls == Cls::C,
-            _ => true,
-        });
-        if wal && all_durable {
-            let diff: Vec<Key> = o
-                .mem_view
-                .iter()
-                .filter(|(k, v)| k.cls != Cls::C && !incoherent.contains(k) && o.rec_view.get(k) != Some(v))
-                .map(|(k, _)| *k)
-                .collect();
-            if diff.is_empty() {
-                self.rep.hit("oracle:recovered_equals_memory");
-            } else {
-                // order in which the writes of the key were logged vs applied (from the real trace)
-                let k = diff[0];
-                let logged: Vec<usize> = o.steps.iter().filter(|s| (s.1 == "store.put_durable" || s.1 == "store.delete_durable") && s.2 == k.show()).map(|s| s.0).collect();
-                let applied: Vec<usize> = o.steps.iter().filter(|s| (s.1 == "router.put_durable.after_log" || s.1 == "router.delete_durable.after_log") && s.2 == k.show()).map(|s| s.0).collect();
-                let input = json!({"line": line, "key": k.show(), "memory": o.mem_view.get(&k), "recovered": o.rec_view.get(&k),
-                                   "log_order_threads": logged, "apply_order_threads": applied, "wal": o.wal});
-                if logged != applied {
-                    self.violation(
-                        "tensor_store.put_durable/durable_order_differs_from_memory_order",
-                        "concurrent durable writes of one key were logged in one order and applied in memory in another: after a crash at quiescence the store recovers a value readers had already seen overwritten",
-                        input,
-                    );
-                } else if k.cls == Cls::E {
-                    self.violation(
-                        "tensor_store/emb_history_not_linearizable",
-                        "durable writers of one emb: key interleaved their index / vector / metadata sub-steps: the quiescent in-memory value is not the last logged one (recovered state differs)",
-                        input,
-                    );
-                } else {
-                    self.violation(
-                        "tensor_store.recover/recovered_state_differs_from_memory",
-                        "after quiescence the store recovered from the log differs from the last in-memory state although log order = apply order",
-                        input,
-                    );
-                }
-            }
+    // (b) crash after quiescence: the store recovered from the log file alone shows every key
+    //     (get / exists / membership in scan) as the live store did.  Evaluated after EVERY run with
+    //     a log, whatever the model said, on every key whose writes were all durable (a key of the
+    //     plain / graph / table class is independent of the others; `emb:` keys, whose entity ids
+    //     depend on the other `emb:` keys of the session, only when every write of the run was durable).
+    fn durable_oracle(&mut self, progs: &[Vec<Op>], wal: bool, o: &RunOut, base: &serde_json::Value, incoherent: &[Key]) {
+        if !wal {
+            return;
+        }
+        let nondurably_written: BTreeSet<Key> = progs
+            .iter()
+            .flatten()
+            .filter_map(|op| match op {
+                Op::Put(k, _) | Op::Del(k) if k.cls != Cls::C => Some(*k),
+                _ => None,
+            })
+            .collect();
+        let all_durable = nondurably_written.is_empty();
+        let checked: Vec<Key> = o
+            .mem_view
+            .keys()
+            .filter(|k| k.cls != Cls::C && !incoherent.contains(k) && (all_durable || (k.cls != Cls::E && !nondurably_written.contains(k))))
+            .copied()
+            .collect();
+        if checked.is_empty() {
+            self.rep.hit("oracle:no_key_with_durable_writes_only");
+            return;
+        }
+        self.rep.hit_n("oracle:keys_compared_live_vs_recovered", checked.len() as u64);
+        let diff: Vec<Key> = checked.iter().filter(|k| o.rec_view.get(k) != o.mem_view.get(k)).copied().collect();
+        if diff.is_empty() {
+            self.rep.hit("oracle:recovered_equals_memory");
+            return;
+        }
+        // order in which the writes of the key were logged vs applied (from the real step order)
+        let k = diff[0];
+        let logged: Vec<usize> = o.steps.iter().filter(|s| (s.1 == "store.put_durable" || s.1 == "store.delete_durable") && s.2 == k.show()).map(|s| s.0).collect();
+        let applied: Vec<usize> = o.steps.iter().filter(|s| (s.1 == "router.put_durable.after_log" || s.1 == "router.delete_durable.after_log") && s.2 == k.show()).map(|s| s.0).collect();
+        // the durable writes of the key that returned Ok, in order of return, and the key's log records
+        let completed: Vec<String> = o
+            .hist
+            .iter()
+            .filter(|r| r.op.key() == Some(k) && matches!(r.op, Op::PutD(..) | Op::DelD(..)))
+            .map(|r| format!("t{}:{}->{}", r.t, r.op.show(), r.res.show()))
+            .collect();
+        let records: Vec<String> = o
+            .wal
+            .as_deref()
+            .unwrap_or("")
+            .split(',')
+            .filter(|e| e.split(':').nth(1) == Some(k.show().as_str()))
+            .map(|e| e.to_string())
+            .collect();
+        let input = with(
+            base,
+            json!({"programs": show_progs(progs), "key": k.show(), "live get/exists/inscan": o.mem_view.get(&k), "recovered get/exists/inscan": o.rec_view.get(&k),
+                   "log_order_threads": logged, "apply_order_threads": applied, "durable_writes_of_key_in_order_of_return": completed,
+                   "log_records_of_key": records, "wal": o.wal, "real_trace": o.trace, "real_history": o.hist_s}),
+        );
+        if logged != applied {
+            self.violation(
+                "tensor_store.put_durable/durable_order_differs_from_memory_order",
+                "concurrent durable writes of one key were logged in one order and applied in memory in another: after a crash at quiescence the store recovers a value readers had already seen overwritten",
+                input,
+            );
+        } else if k.cls == Cls::E {
+            self.violation(
+                "tensor_store/emb_history_not_linearizable",
+                "durable writers of one emb: key interleaved their index / vector / metadata sub-steps: the quiescent in-memory value is not the last logged one (recovered state differs)",
+                input,
+            );
+        } else {
+            self.violation(
+                "tensor_store.recover/recovered_state_differs_from_memory",
+                "all durable writes have returned, yet the store recovered from the log file alone answers get / exists / scan about the key differently from the live store (log order = apply order: a write that took effect in memory has no log record, or the reverse): a crash now resurrects or loses the value readers last saw",
+                input,
+            );
         }
     }
 }
@@ -1009,14 +1182,16 @@ fn main() {
     let root = Rng::new(args.seed);
 
     if let Some(path) = &args.replay {
-        // replay file: {"failing_input": {"line": "run <wal> <progs> <sched>"}}
+        // replay file: {"failing_input": {"line": "run <wal> <progs> <sched>"}}; a real-mutex run has
+        // {"mutex": "real", "grants": "<threads in grant order>"} beside it (`line` = order of the steps)
         let v: serde_json::Value = serde_json::from_str(&std::fs::read_to_string(path).unwrap_or_default()).unwrap_or(json!({}));
         let line = v["failing_input"]["line"].as_str().unwrap_or("").to_string();
         let f: Vec<&str> = line.split(' ').collect();
         if f.len() == 4 {
             if let Some(progs) = parse_progs(f[2]) {
-                let sched = parse_sched(f[3]);
-                let mut ctx = Ctx { rep: &mut rep, model: &mut model, viol_count: BTreeMap::new(), budget_hits: 0, stalls: 0, exclusive_emb: false };
+                let real_mutex = v["failing_input"]["mutex"].as_str() == Some("real");
+                let sched = parse_sched(if real_mutex { v["failing_input"]["grants"].as_str().unwrap_or(f[3]) } else { f[3] });
+                let mut ctx = Ctx { rep: &mut rep, model: &mut model, viol_count: BTreeMap::new(), budget_hits: 0, stalls: 0, exclusive_emb: false, real_mutex };
                 let mut r = root.fork("replay");
                 let wal = if f[1] == "1" { Some(SyncMode::Immediate) } else { None };
                 if let Some(o) = ctx.case("replay", &progs, wal, Some(&sched), &mut r, true) {
@@ -1029,7 +1204,82 @@ fn main() {
     }
 
     let scale: u64 = if args.thorough { 12 } else { 1 };
-    let mut ctx = Ctx { rep: &mut rep, model: &mut model, viol_count: BTreeMap::new(), budget_hits: 0, stalls: 0, exclusive_emb: false };
+    let mut ctx = Ctx { rep: &mut rep, model: &mut model, viol_count: BTreeMap::new(), budget_hits: 0, stalls: 0, exclusive_emb: false, real_mutex: false };
+
+    // ---- FIRST: durable writers of ONE key racing on the REAL log mutex, by directed schedules
+    //      (deterministic for every seed).  A thread is granted its `store.*_durable` step while the
+    //      other is between its log step and its apply: it runs up to `Mutex::lock`, blocks, and
+    //      takes its log step when the holder has applied.  Whatever the code does between the
+    //      entry of the call and the mutex is done against the state BEFORE the holder's apply.
+    //      Every run: model comparison in the effective step order + all oracles (recovered = live).
+    {
+        ctx.real_mutex = true;
+        let mut r = root.fork("directed.real_mutex");
+        let v = |t: u32| Val { tag: t, vec: VecF::N };
+        // the interleaving of `Props.delete_skip_if_absent_witness`, from the model: on the code as
+        // it is the delete logs its record after the set and the recovered store equals the live one
+        {
+            let name = "delete_skip_if_absent";
+            let w = ctx.model.ask(&format!("witness {name}"));
+            let f: Vec<&str> = w.split(' ').collect();
+            match (f.get(1).and_then(|p| parse_progs(p)), f.len() == 3) {
+                (Some(progs), true) => {
+                    let before: u32 = ctx.viol_count.values().sum();
+                    match ctx.case(&format!("witness.{name}"), &progs, Some(SyncMode::Immediate), Some(&parse_sched(f[2])), &mut r, true) {
+                        Some(o) => {
+                            let after: u32 = ctx.viol_count.values().sum();
+                            ctx.rep.hit(&format!("{}:{name}", if after > before { "witness_reproduced_on_real_store" } else { "witness_not_reproduced_on_real_store" }));
+                            if o.waits.is_empty() {
+                                ctx.rep.disagree("witness.delete_skip_if_absent.schedule", json!({"real_trace": o.trace}), "the delete was not granted while the put held the log mutex", "delete waits behind the put");
+                            }
+                        }
+                        None => ctx.rep.disagree("witness.stalled", json!({"witness": name}), "scheduler stalled on every attempt", ""),
+                    }
+                }
+                _ => ctx.rep.disagree("witness.driver", json!({"witness": name}), "", &w),
+            }
+        }
+        for cls in [Cls::P, Cls::G, Cls::T] {
+            let k = Key { cls, id: 1 };
+            let (pd, dd) = (|t: u32| Op::PutD(k, v(t)), Op::DelD(k));
+            // (programs, grants); W = the grant of the thread that then waits for the mutex
+            let scenarios: Vec<(&str, Vec<Vec<Op>>, Vec<usize>)> = vec![
+                // delete of a key that is ABSENT at the start, granted while the put of that key is
+                // between log and apply:  A log, B W, A apply (B logs), B apply
+                ("delete_of_absent_key_waits_behind_put", vec![vec![pd(1)], vec![dd]], vec![0, 1, 0, 1]),
+                // the other way round: the put waits behind the delete of the absent key
+                ("put_waits_behind_delete_of_absent_key", vec![vec![dd], vec![pd(1)]], vec![0, 1, 0, 1]),
+                // delete of a PRESENT key waits behind a put that overwrites it
+                ("delete_of_present_key_waits_behind_put", vec![vec![pd(1), pd(2)], vec![dd]], vec![0, 0, 0, 1, 0, 1]),
+                // a put waits behind the delete of the present key
+                ("put_waits_behind_delete_of_present_key", vec![vec![pd(1), dd], vec![pd(2)]], vec![0, 0, 0, 1, 0, 1]),
+                // two deletes of a present key: the second one sees it present and waits, then finds it gone
+                ("delete_waits_behind_delete_of_present_key", vec![vec![pd(1), dd], vec![dd]], vec![0, 0, 0, 1, 0, 1]),
+                // two deletes of an absent key
+                ("delete_waits_behind_delete_of_absent_key", vec![vec![dd], vec![dd]], vec![0, 1, 0, 1]),
+                // put / put / delete: the delete waits behind put A, put B waits behind the delete
+                ("put_put_delete", vec![vec![pd(1)], vec![pd(2)], vec![dd]], vec![0, 2, 0, 1, 2, 1]),
+                // delete waits behind the first put, a second delete and a re-put follow in its thread
+                ("delete_then_put_again", vec![vec![pd(1)], vec![dd, pd(2), dd]], vec![0, 1, 0, 1, 1, 1, 1, 1]),
+            ];
+            for (name, progs, grants) in scenarios {
+                if cls != Cls::P && !name.starts_with("delete_of_") {
+                    continue; // the other classes share the code path: the two delete-behind-put races only
+                }
+                let stream = format!("directed.real_mutex.{name}");
+                match ctx.case(&stream, &progs, Some(SyncMode::Immediate), Some(&grants), &mut r, true) {
+                    Some(o) => {
+                        if o.waits.is_empty() {
+                            ctx.rep.disagree(&format!("{stream}.schedule"), json!({"real_trace": o.trace}), "no durable writer was granted while the log mutex was held", "one waits");
+                        }
+                        ctx.rep.hit(&format!("directed.real_mutex:{name}"));
+                    }
+                    None => ctx.rep.disagree("directed.real_mutex.stalled", json!({"scenario": name}), "scheduler stalled on every attempt", ""),
+                }
+            }
+        }
+        ctx.real_mutex = false;
+    }
 
     // ---- (ii) the Lean witness interleaving of `emb_mixture_witness`, replayed on the real store
     {
@@ -1152,6 +1402,26 @@ fn main() {
         }
     }
 
+    // ---- durable runs on the REAL log mutex: seeded programs and schedules in which durable
+    //      writers are granted while the mutex is held (each such grant costs the scheduler's stall
+    //      window, hence fewer runs than in the mirrored streams)
+    {
+        ctx.real_mutex = true;
+        let stream = "random.durable_real_mutex";
+        let mut r = root.fork(stream);
+        let mut g = Gen { next_tag: 0 };
+        for i in 0..(90 * scale) {
+            let nthreads = 2 + (i % 3) as usize; // 2..=4
+            let progs = match i % 3 {
+                0 => g.progs(&mut r, true, &[Cls::P, Cls::G, Cls::T, Cls::C], nthreads),
+                _ => g.writers(&mut r, nthreads),
+            };
+            let wal = Some(if i % 4 == 0 { SyncMode::Immediate } else { SyncMode::Manual });
+            ctx.case(stream, &progs, wal, None, &mut r, true);
+        }
+        ctx.real_mutex = false;
+    }
+
     // ---- the hypothesis of `emb_linearizable_partial` on the real store: any programs of
     //      put / get / delete / exists / scan, schedules in which no two operations on one emb: key
     //      overlap (scans and operations on other keys overlap freely) — every history must be
@@ -1193,6 +1463,15 @@ fn main() {
         "overlapping_multi_step_op", "oracle:history_linearizable", "oracle:recovered_equals_memory",
         "probe:second_durable_writer_blocked_on_real_log_mutex", "witness_reproduced_on_real_store:emb_mixture",
         "oracle:no_overlap_history_linearizable_and_coherent", "no_overlap_run_with_concurrent_multi_step_emb_op",
+        "witness_not_reproduced_on_real_store:delete_skip_if_absent",
+        "directed.real_mutex:delete_of_absent_key_waits_behind_put", "directed.real_mutex:put_waits_behind_delete_of_absent_key",
+        "directed.real_mutex:delete_of_present_key_waits_behind_put", "directed.real_mutex:put_waits_behind_delete_of_present_key",
+        "directed.real_mutex:delete_waits_behind_delete_of_present_key", "directed.real_mutex:delete_waits_behind_delete_of_absent_key",
+        "directed.real_mutex:put_put_delete", "directed.real_mutex:delete_then_put_again",
+        "real_mutex:durable_writer_waited_for_real_log_mutex",
+        "real_mutex:delete_durable_behind_put_durable_same_key", "real_mutex:put_durable_behind_delete_durable_same_key",
+        "real_mutex:put_durable_behind_put_durable_same_key", "real_mutex:delete_durable_behind_delete_durable_same_key",
+        "oracle:keys_compared_live_vs_recovered",
     ]
     .iter()
     .map(|s| s.to_string())
